@@ -124,7 +124,9 @@ TSnap ==
        [] Ev.at = "closing" -> IF txn[Ev.t].pc = "snap.open" THEN SnapHeader(Ev.t) /\ txn'[Ev.t].sn.nb = 0
                                ELSE SnapBlock(Ev.t) /\ Len(txn'[Ev.t].sn.blocks) = txn[Ev.t].sn.nb
        [] Ev.at = "copying" -> SnapClose(Ev.t)
-       [] Ev.at = "ret"     -> IF Ev.err THEN (SnapFail(Ev.t) \/ SnapBusy(Ev.t, Ev.c)) ELSE SnapCopy(Ev.t, Ev.file)
+       \* C14: a destination that failed at any point makes Snapshot return an error
+       [] Ev.at = "ret"     -> /\ Ev.dstfailed => Ev.err
+                               /\ IF Ev.err THEN (SnapFail(Ev.t) \/ SnapBusy(Ev.t, Ev.c)) ELSE SnapCopy(Ev.t, Ev.file)
 TRestore ==
   /\ Is("restore")
   /\ IF Ev.at = "begin" THEN RestoreBegin(Ev.t, Ev.c, Ev.file, Ev.trunc) ELSE RestoreEnd(Ev.t, Ev.err)
